@@ -42,7 +42,7 @@ CFG = {
                        "scope with the complete request grid; everything else is sampled",
     "trusted_base": ROUTER_TB,
     "assumptions": [
-        "dropshot inspects versions only through Ord/Eq (chain indices are a faithful abstraction; C05 checks the order itself)",
+        "dropshot inspects versions only through Ord/Eq (on the model side chain indices / ranks are a faithful abstraction by theorem: C01_lookup_invariant, C01_pipeline_by_rank; C05 checks the order itself against the semver crate)",
         "requests without a version occur only on tables with no version-restricted endpoint (the server refuses to start otherwise)",
     ],
     "manifest": {
@@ -55,7 +55,10 @@ CFG = {
                 "registration order; the trie stands for exactly the declared table; lookup never trips its internal "
                 "assertions; and through the composed request pipeline (version policy, path "
                 "normalisation, trie) the handler of e runs exactly when the policy yields a version, the raw path "
-                "normalises and e serves the decoded segments at that version. Proved by an abstraction function routes: trie -> table and induction over templates / "
+                "normalises and e serves the decoded segments at that version; registration, every lookup outcome and "
+                "the pipeline are invariant under any map of the version type preserving comparisons that involve a "
+                "range bound or the policy maximum (instance: ranking semver against the chain, which is what the "
+                "pipeline judge computes). Proved by an abstraction function routes: trie -> table and induction over templates / "
                 "segment lists. Correspondence with the real router on generated tables and request grids "
                 "(hundreds of tables, tens of thousands of lookups per run), judged in Coq by the declarative "
                 "specification and by the model.",
